@@ -256,17 +256,16 @@ Proof.
   assert (R1 : wreach ex_la ex_L ex_w0 w1).
   { eapply wr_step; [apply wr_init|]. apply (ws_switch ex_la ex_L ex_w0 1 m1).
     - exact (proj2 ex_inv0).
-    - exact E1. }
+    - cbn [ex_w0 w_m]. unfold ex_r1 in E1. exact E1. }
   (* context 1 computes: new register values, deeper rsp; memory untouched *)
   set (mu := ex_call (mm m1) (69592 - 64) 1 0 200).
   set (w1u := {| w_m := mu; w_cur := w_cur w1; w_out := w_out w1 |}).
   assert (R1u : wreach ex_la ex_L ex_w0 w1u).
   { eapply wr_step; [exact R1|]. apply (ws_user ex_la ex_L w1 mu). intros c Hc Hn. split; reflexivity || auto. }
   assert (P : switch_pre ex_L w1u 0).
-  { pose proof (inv_reach ex_la ex_L ex_w0 w1u ex_layout_ok (proj1 ex_inv0) R1u) as [_ I].
-    destruct (I 0%nat) as [_ [_ [S3 _]]]; [cbn; lia | cbn; lia |].
-    unfold switch_pre. cbn [ex_L live lo hi slot w1u w1 w_m w_cur mu ex_call rg mm] in *.
-    repeat split; try lia; try (vm_compute; reflexivity). }
+  { unfold switch_pre. cbn [ex_L live lo hi slot w1u w1 w_m w_cur mu ex_call rg mm].
+    concrete_operands. cbn [upd_reg reg_eqb].
+    repeat split; try lia; try reflexivity; try (vm_compute; reflexivity). }
   destruct (swap_sequence ex_la ex_L ex_w0 w1u 0 ex_layout_ok (proj1 ex_inv0) R1u P)
     as [_ [m2 [E2 _]]].
   eexists. split; [eapply wr_step; [exact R1u | apply (ws_switch ex_la ex_L w1u 0 m2 P E2)]|].
